@@ -169,21 +169,31 @@ def infoObs (cs : List (Key × Nat)) (packs : List IndexPack) : String :=
 
 /-- `hist`: the model side of a real history only predicts which snapshots survive (the oracles run in the harness).
 steps: `b<k>` backup of source version k, `f<i>` forget the i-th live snapshot (mod count), `p…` prune,
-`s` a second handle reads the repository, `a<k>` that handle finishes a backup (ill-formed without a preceding `s`). -/
+`s` a second handle reads the repository, `a<k>` that handle finishes a backup (ill-formed without a preceding `s`),
+`h<k>` a backup uploads its packs (index + snapshot held back; ill-formed while another one is open), `e` it finishes
+(ill-formed without `h`). -/
+structure HistSt where
+  live : Nat := 0
+  forgotten : Nat := 0
+  stale : Bool := false
+  half : Bool := false
+
 def histObs (steps : List String) : String :=
-  let r := steps.foldl (fun (st : Option (Nat × Nat × Bool)) s => st.bind fun st => match s.toList with
-    | 'b' :: _ => some (st.1 + 1, st.2.1, st.2.2)
-    | 'x' :: _ => some (st.1 + 1, st.2.1, st.2.2)
-    | 'c' :: _ => some (st.1 + 2, st.2.1, st.2.2)
-    | 'f' :: _ => if st.1 > 1 then some (st.1 - 1, st.2.1 + 1, st.2.2) else some st
-    | 'u' :: _ => if st.2.1 > 0 then some (st.1 + 1, st.2.1 - 1, st.2.2) else some st
-    | ['s'] => some (st.1, st.2.1, true)
-    | 'a' :: _ => if st.2.2 then some (st.1 + 1, st.2.1, false) else none
+  let r := steps.foldl (fun (st : Option HistSt) s => st.bind fun st => match s.toList with
+    | 'b' :: _ => some { st with live := st.live + 1 }
+    | 'x' :: _ => some { st with live := st.live + 1 }
+    | 'c' :: _ => some { st with live := st.live + 2 }
+    | 'f' :: _ => if st.live > 1 then some { st with live := st.live - 1, forgotten := st.forgotten + 1 } else some st
+    | 'u' :: _ => if st.forgotten > 0 then some { st with live := st.live + 1, forgotten := st.forgotten - 1 } else some st
+    | ['s'] => some { st with stale := true }
+    | 'a' :: _ => if st.stale then some { st with live := st.live + 1, stale := false } else none
+    | 'h' :: k => if st.half ∨ (String.ofList k).toNat?.isNone then none else some { st with half := true }
+    | ['e'] => if st.half then some { st with live := st.live + 1, half := false } else none
     | 'p' :: _ => some st
     | ['m'] => some st
-    | _ => none) (some (0, 0, false))
+    | _ => none) (some {})
   match r with
-  | some r => s!"ok snaps={r.1}"
+  | some r => s!"ok snaps={r.live}"
   | none => "bad-op"
 
 def handle : List String → String
